@@ -36,22 +36,70 @@ type PathQuery struct {
 
 // PathExists answers whether some CFG path from the start reaches a target instruction
 // without passing through a blocked instruction. If found, it returns the witness target.
+// Calls to transparent helpers (see transparent.go) are walked through: the search enters the helper's body and
+// continues after the call when the helper returns; a helper's own return instructions are not offered to Target /
+// Blocked (they are not exits of q.Fn).
 func PathExists(q PathQuery) (ssa.Instruction, bool) {
 	fn := q.Fn
 	if fn == nil || len(fn.Blocks) == 0 {
 		return nil, false
 	}
-	type start struct {
-		b   *ssa.BasicBlock
-		idx int
+	type state struct {
+		b     *ssa.BasicBlock
+		idx   int
+		stack []*ssa.Call
+		// set when the state continues after a transparent helper returned: the call and whether the error it
+		// returned on that path is the nil constant (+1), provably non-nil (-1) or unknown (0)
+		retCall *ssa.Call
+		retErr  int
 	}
-	var work []start
-	visited := map[*ssa.BasicBlock]bool{} // visited from index 0
+	key := func(stack []*ssa.Call) string {
+		if len(stack) == 0 {
+			return ""
+		}
+		k := make([]byte, 0, 16*len(stack))
+		for _, c := range stack {
+			k = append(k, []byte(ptrKey(c))...)
+			k = append(k, '/')
+		}
+		return string(k)
+	}
+	type vkey struct {
+		stack string
+		b     *ssa.BasicBlock
+	}
+	type rkey struct {
+		stack string
+		c     *ssa.Call
+	}
+	visited := map[vkey]bool{}    // (context, block) entered at index 0
+	returned := map[rkey]bool{}   // (context, call) continued after the call
+	var work []state
 	if q.After == nil {
-		work = append(work, start{fn.Blocks[0], 0})
-		visited[fn.Blocks[0]] = true
+		work = append(work, state{b: fn.Blocks[0]})
+		visited[vkey{"", fn.Blocks[0]}] = true
 	} else {
-		work = append(work, start{q.After.Block(), InstrIndex(q.After) + 1})
+		af := q.After.Parent()
+		chains := [][]*ssa.Call{nil}
+		if af != fn {
+			if cs := transparentChains(fn, af); len(cs) > 0 {
+				chains = cs
+			}
+		}
+		for _, ch := range chains {
+			work = append(work, state{b: q.After.Block(), idx: InstrIndex(q.After) + 1, stack: ch})
+		}
+	}
+	onStack := func(stack []*ssa.Call, g *ssa.Function) bool {
+		if g == fn {
+			return true
+		}
+		for _, c := range stack {
+			if c.Parent() == g || TransparentCallee(c) == g {
+				return true
+			}
+		}
+		return false
 	}
 	for len(work) > 0 {
 		s := work[len(work)-1]
@@ -59,6 +107,30 @@ func PathExists(q PathQuery) (ssa.Instruction, bool) {
 		cut := false
 		for i := s.idx; i < len(s.b.Instrs); i++ {
 			in := s.b.Instrs[i]
+			if _, isRet := in.(*ssa.Return); isRet && len(s.stack) > 0 {
+				// return of a transparent helper: continue after the call in the caller
+				call := s.stack[len(s.stack)-1]
+				rest := s.stack[:len(s.stack)-1]
+				ne := 0
+				if r := in.(*ssa.Return); len(r.Results) > 0 && isErrorType(r.Results[len(r.Results)-1].Type()) {
+					last := r.Results[len(r.Results)-1]
+					if srcs := resolveLocal(last); len(srcs) == 1 {
+						last = srcs[0]
+					}
+					if IsNilConst(last) {
+						ne = 1
+					} else if provablyNonNilAt(in.Parent(), last, in) {
+						ne = -1
+					}
+				}
+				rk := rkey{key(rest) + "#" + string(rune('1'+ne)), call}
+				if !returned[rk] {
+					returned[rk] = true
+					work = append(work, state{b: call.Block(), idx: InstrIndex(call) + 1, stack: rest, retCall: call, retErr: ne})
+				}
+				cut = true
+				break
+			}
 			if q.Blocked != nil && q.Blocked(in) {
 				cut = true
 				break
@@ -66,22 +138,63 @@ func PathExists(q PathQuery) (ssa.Instruction, bool) {
 			if q.Target != nil && q.Target(in) {
 				return in, true
 			}
+			if g := TransparentCallee(in); g != nil && len(s.stack) < maxInlineDepth && !onStack(s.stack, g) {
+				ns := append(append([]*ssa.Call{}, s.stack...), in.(*ssa.Call))
+				vk := vkey{key(ns), g.Blocks[0]}
+				if !visited[vk] {
+					visited[vk] = true
+					work = append(work, state{b: g.Blocks[0], stack: ns})
+				}
+				cut = true // the continuation is scheduled when the helper returns
+				break
+			}
 		}
 		if cut {
 			continue
 		}
+		sk := key(s.stack)
+		// a helper that returned a nil (non-nil) error cannot take the caller's err != nil (err == nil) branch right after
+		skip := -1
+		if s.retCall != nil && s.retErr != 0 && len(s.b.Succs) == 2 {
+			if ifi, ok := s.b.Instrs[len(s.b.Instrs)-1].(*ssa.If); ok {
+				if bo, ok := ifi.Cond.(*ssa.BinOp); ok && (bo.Op == token.NEQ || bo.Op == token.EQL) {
+					var other ssa.Value
+					if IsNilConst(bo.Y) {
+						other = bo.X
+					} else if IsNilConst(bo.X) {
+						other = bo.Y
+					}
+					if other != nil && isErrorType(other.Type()) && DerivesFromCall(other, s.retCall, 0) {
+						errIsNil := s.retErr == 1
+						// Succs[0] is taken when the condition holds
+						condHolds := (bo.Op == token.EQL) == errIsNil
+						if condHolds {
+							skip = 1
+						} else {
+							skip = 0
+						}
+					}
+				}
+			}
+		}
 		for si, succ := range s.b.Succs {
+			if si == skip {
+				continue
+			}
 			if q.Edge != nil && !q.Edge(s.b, si) {
 				continue
 			}
-			if !visited[succ] {
-				visited[succ] = true
-				work = append(work, start{succ, 0})
+			vk := vkey{sk, succ}
+			if !visited[vk] {
+				visited[vk] = true
+				work = append(work, state{b: succ, stack: s.stack})
 			}
 		}
 	}
 	return nil, false
 }
+
+func ptrKey(c *ssa.Call) string { return c.Name() + "@" + c.Parent().Name() + c.Parent().RelString(nil) }
 
 func instrSet(sites []Site) map[ssa.Instruction]bool {
 	m := map[ssa.Instruction]bool{}
@@ -246,7 +359,7 @@ type Edge struct {
 // ErrCheckEdges finds the If instructions that test the error produced by call c against nil and
 // classifies their out-edges. nilEdges are edges taken when the error is nil; errEdges when non-nil.
 func ErrCheckEdges(fn *ssa.Function, c ssa.Value) (nilEdges, errEdges []Edge) {
-	for _, b := range fn.Blocks {
+	for _, b := range blocksT(fn, c) {
 		if len(b.Instrs) == 0 {
 			continue
 		}
@@ -287,7 +400,7 @@ func ErrCheckEdges(fn *ssa.Function, c ssa.Value) (nilEdges, errEdges []Edge) {
 // BoolCheckEdges does the same for a call returning bool (or a bool extracted from it): edges taken
 // when the result is true / false. Handles `if f()`, `if !f()`, `if ok := f(); ok`.
 func BoolCheckEdges(fn *ssa.Function, c ssa.Value) (trueEdges, falseEdges []Edge) {
-	for _, b := range fn.Blocks {
+	for _, b := range blocksT(fn, c) {
 		if len(b.Instrs) == 0 {
 			continue
 		}
@@ -547,6 +660,24 @@ func Unwrap(v ssa.Value) ssa.Value { return unwrap(v) }
 // the code that follows the loop (it only says the loop terminated); the entry test of a loop is a
 // guard of its body.  taken[i] tells which outcome leads to `in`.
 func GuardingConds(fn *ssa.Function, in ssa.Instruction) (conds []ssa.Value, taken []bool) {
+	if g := in.Parent(); g != nil && fn != nil && g != fn {
+		// instruction inside a transparent helper: its guards inside the helper plus the guards of the call site(s)
+		conds, taken = guardingCondsIn(g, in)
+		chains := transparentChains(fn, g)
+		if len(chains) == 1 {
+			for i := len(chains[0]) - 1; i >= 0; i-- {
+				call := chains[0][i]
+				c2, t2 := guardingCondsIn(call.Parent(), call)
+				conds = append(conds, c2...)
+				taken = append(taken, t2...)
+			}
+		}
+		return
+	}
+	return guardingCondsIn(fn, in)
+}
+
+func guardingCondsIn(fn *ssa.Function, in ssa.Instruction) (conds []ssa.Value, taken []bool) {
 	tb := in.Block()
 	isBack := func(u, v *ssa.BasicBlock) bool { return v.Dominates(u) }
 	reachDAG := func(start *ssa.BasicBlock) bool {
@@ -692,3 +823,36 @@ func DominatedByEdge(fn *ssa.Function, in ssa.Instruction, e Edge) bool {
 		Edge:   ForbidEdges([]Edge{e})})
 	return !found
 }
+
+// blocksT lists the blocks of fn, of the helpers fn transparently enters, and of the function that holds the value v
+// (a test of a call's result may sit in another function of the same transparent region than the call).
+func blocksT(fn *ssa.Function, v ssa.Value) []*ssa.BasicBlock {
+	var out []*ssa.BasicBlock
+	seen := map[*ssa.Function]bool{}
+	var rec func(f *ssa.Function, d int)
+	rec = func(f *ssa.Function, d int) {
+		if f == nil || seen[f] {
+			return
+		}
+		seen[f] = true
+		out = append(out, f.Blocks...)
+		if d >= maxInlineDepth {
+			return
+		}
+		for _, b := range f.Blocks {
+			for _, in := range b.Instrs {
+				if g := TransparentCallee(in); g != nil {
+					rec(g, d+1)
+				}
+			}
+		}
+	}
+	rec(fn, 0)
+	if in, ok := v.(ssa.Instruction); ok && in.Parent() != nil {
+		rec(in.Parent(), maxInlineDepth)
+	}
+	return out
+}
+
+// BlocksT lists the blocks of fn and of the helpers it transparently enters.
+func BlocksT(fn *ssa.Function) []*ssa.BasicBlock { return blocksT(fn, nil) }
